@@ -1,10 +1,10 @@
-(* Extract_xpath.v — extraction of the xpath slice (XPathConv, XPathTree, XPathSem) to OCaml; see Extract_xml.v. *)
+(* Extract_xpath.v — extraction of the xpath slice (XPathConv, XPathTree, XPathSem, XPathLookup) to OCaml; see Extract_xml.v. *)
 From Coq Require Extraction ExtrOcamlBasic.
 From Coq Require Import QArith.
-From LY Require Import Base XPathConv XPathTree XPathSem.
+From LY Require Import Base XPathConv XPathTree XPathSem XPathLookup.
 Extraction Language OCaml.
 Extraction "model_xpath.ml"
   N.add N.mul N.div N.modulo N.sub Z.add Z.mul Z.opp Z.of_N Z.abs_N Z.sub Z.ltb Z.pow Z.log2 Z.even Z.abs Z.to_N Z.eqb Z.div Z.modulo Qreduction.Qred
   XPathConv.spec_s2n XPathConv.impl_s2n XPathConv.spec_n2s XPathConv.impl_n2s XPathConv.q_is_zero
   XPathTree.index_tree XPathTree.all_items XPathTree.item_key XPathTree.sorted_items
-  XPathSem.eval_top XPathSem.spec_flags XPathSem.impl_flags.
+  XPathSem.eval_top XPathSem.spec_flags XPathSem.impl_flags XPathLookup.lookup_answer_top.
